@@ -124,6 +124,44 @@ def _init_worker():
     tb.import_toolbox()
 
 
+def _same_expr(a, b):
+    """two result strings denote the same expression: equal text, or equal values at two random rational points (SymPy's simplification is
+    not reproducible across interpreter processes - hash randomisation - so `(I_e - g_L*g)/C_m` and `I_e/C_m - g_L*g/C_m` are the same answer)"""
+    if a == b:
+        return True
+    try:
+        import random
+        import sympy
+        from harness.core import numeval, refsol
+        ea, eb = refsol.parse(str(a)), refsol.parse(str(b))
+        syms = sorted(ea.free_symbols | eb.free_symbols, key=str)
+        rnd = random.Random(20240611)
+        for _ in range(2):
+            pt = {x: sympy.Rational(rnd.randint(2, 97), rnd.randint(2, 89)) for x in syms}
+            va, vb = numeval.val(ea, pt), numeval.val(eb, pt)
+            if va is None or vb is None or not numeval.close(va, vb):
+                return False
+        return True
+    except Exception:
+        return False
+
+
+def _same_content(cli, api):
+    """same solvers in the same order, same keys in the same order, same state-variable lists, expression-valued entries equal as expressions"""
+    if not isinstance(cli, list) or not isinstance(api, list) or len(cli) != len(api):
+        return cli == api
+    for a, b in zip(cli, api):
+        if not isinstance(a, dict) or not isinstance(b, dict) or list(a.keys()) != list(b.keys()):
+            return False
+        for k in a:
+            if isinstance(a[k], dict) and isinstance(b[k], dict):
+                if list(a[k].keys()) != list(b[k].keys()) or not all(_same_expr(a[k][q], b[k][q]) for q in a[k]):
+                    return False
+            elif a[k] != b[k]:
+                return False
+    return True
+
+
 def run(ctx, driver):
     tb.import_toolbox()
     quick = ctx.tier == "quick"
@@ -155,7 +193,7 @@ def run(ctx, driver):
             else:
                 if res["produced"] != [want_name]:
                     ctx.fail("wrong-result-file-name", _pub(case), {"expected": want_name, "observed": res["produced"], "signature": sig})
-                if res["content"] != res["api"]:
+                if not _same_content(res["content"], res["api"]):
                     ctx.fail("cli-content-differs-from-api", _pub(case), {"signature": sig, "cli": json.dumps(res["content"])[:300], "api": json.dumps(res["api"])[:300]})
         else:
             if res["rc"] == 0 or res["produced"]:
